@@ -102,7 +102,10 @@ type exprVar struct {
 	formal bool
 }
 
-const trickyText = `a > 1 && b < "x"`
+// text with every character XML escapes in element content; valid XPath (the default language of
+// the generated documents) and true: an invalid expression makes the un-instrumented third-party
+// parser print a map-ordered error text, which differs between two runs of the same model
+const trickyText = `2 > 1 and 1 < 2 and "a&&b" = "a&&b"`
 
 // text whose inner white space matters: a string literal with two blanks, a tab and a line break
 // inside the payload (only *surrounding* white space is outside the comparison)
